@@ -296,7 +296,7 @@ type floatLit struct {
 }
 
 var floatLits = []floatLit{{"1.5", 1.5}, {"0.25", 0.25}, {"10.0", 10}, {"0.0", 0}, {"1e3", 1000}, {"1.5e3", 1500}, {"1e-3", 0.001}, {"1e+3", 1000}, {"2.5e-300", 2.5e-300}, {"1e308", 1e308},
-	{"0x1.8p3", 12}, {"0xA.Bp3", 85.5}, {"0x1.8", 1.5}, {"0x1p-2", 0.25}, {"123456.789", 123456.789}, {"3.14159", 3.14159}, {"00.5", 0.5}}
+	{"0x1.8p3", 12}, {"0xA.Bp3", 85.5}, {"0x1.8", 1.5}, {"0x1p-2", 0.25}, {"0x1.e", 1.875}, {"0xe.8", 14.5}, {"0xbe.ef", 190.93359375}, {"0x1.ep1", 3.75}, {"123456.789", 123456.789}, {"3.14159", 3.14159}, {"00.5", 0.5}}
 
 func (g *G) Float() *Atom {
 	l := floatLits[g.R.Intn(len(floatLits))]
@@ -789,7 +789,16 @@ func (g *G) switchStmt(depth int) ast.Statement {
 	g.t("switch", "SwitchStatement#0", true)
 	g.t("(", "SwitchStatement#1", true)
 	ctl := &ast.SwitchControl{}
-	switch r.Intn(3) {
+	switch r.Intn(4) {
+	case 3:
+		// a control built by concatenation (string first: juxtaposition or explicit +)
+		k1 := &Atom{Src: "\"k\"", Cls: "string", Node: &ast.String{Meta: meta("k"), Value: "k"}}
+		var second Expr = &Atom{Src: "\"v\"", Cls: "string", Node: &ast.String{Meta: meta("v"), Value: "v"}}
+		if r.Intn(2) == 0 {
+			second = g.Ident()
+		}
+		c := &Chain{Operands: []Expr{k1, second}, Ops: []string{"+"}, Explicit: []bool{r.Intn(2) == 0}}
+		ctl.Expression = g.emitExpr(c, "SwitchStatement#2", true)
 	case 0:
 		a := g.Ident()
 		a.emitSlot(g, "SwitchStatement#2", true)
